@@ -245,6 +245,7 @@ static int run_one(int PB) {
         vc_viol(cls, "init %d, %d preemptions: no thread can run any more; completed calls: %s", P.init, np, desc);
         vc_case_end(); return 0;   /* container and parked threads are abandoned */
     }
+    if (sc_foreign_unlock) { snprintf(cls, sizeof cls, "conc:forced-unlock-took-the-lock:%s", CONT.name); describe(desc, sizeof desc); vc_viol(cls, "init %d: a thread whose wait timed out unlocked the mutex another thread was holding: %s", P.init, desc); }
     void *qm = CONT.mutex(CUR);
     if (qm && sc_lock_depth(&((qmutex_t *)qm)->mutex) != 0) {
         snprintf(cls, sizeof cls, "conc:lock-left-held:%s", CONT.name); describe(desc, sizeof desc);
@@ -340,11 +341,13 @@ static int replay(const char *key) {
 }
 static int worker(int argc, char **argv) {
     vc_hang_ticks = 20;
+    if (argc > 6) sc_to_budget = atoi(argv[6]);     /* time-out deviations per execution (see sched.c) */
     if (vc_replay_key) return replay(vc_replay_key);
     if (argc < 6) return 1;
     if (set_container(argv[1])) return 1;
     int shape = atoi(argv[2]), PB = atoi(argv[3]);
     enumerate(shape, PB, atol(argv[4]), atol(argv[5]));
+    vc_stat_add("lock_wait_timeouts_explored", sc_timeouts);
     vc_stat_add("programs", n_programs); vc_stat_add("transitions", n_exec); vc_stat_add("states", n_programs); vc_stat_add("max_schedules_per_program", n_maxsched);
     vc_stat_add("programs_with_several_outcomes", n_multi_outcome_programs); vc_stat_add("stuck_executions", n_deadlocks); vc_stat_add("nonlinearizable", n_nonlin);
     for (int i = 0; i < 8; i++) { char nm[32]; snprintf(nm, sizeof nm, "executions_with_%d_preemptions", i); if (n_preempt_hist[i]) vc_stat_add(nm, n_preempt_hist[i]); }
